@@ -197,3 +197,63 @@ Lemma contextual_without_isolation_refuted :
     map ktype (fst (ctx_lex lower f15_m ex_cok f15_text nat f15_accepts f15_step 6 f15_terms [] [] root 0 0))
       = ["IFP"].
 Proof. eexists. eexists. split; [reflexivity|]. vm_compute. repeat split; reflexivity. Qed.
+
+(* ---------------------------------------------------------------- round 12: the model parse table *)
+From LV Require Import Cfg.Grammar LR.Driver Lex.ContextualLR Lex.ContextualLR_proofs Lex.Alt Lex.Alt_proofs.
+
+(* start: IF NAME  with IF = T 0, WS = T 1, NAME = T 2 (indices in ex_terms), $END = T 4;
+   lark's table: 0: {IF: shift 1, start: shift 3}  1: {NAME: shift 2}  2: {$END: reduce start -> IF NAME} *)
+Definition ex_rule : rule := mkRule 0 [T 0; T 2].
+Definition ex_rows : rows :=
+  [(0, [(T 0, Shift 1); (NT 0, Shift 3)]); (1, [(T 2, Shift 2)]); (2, [(T 4, Reduce ex_rule)])].
+Definition ex_end : tok := mkTok "$END" 4 0.
+Definition ex_tree : dtree tok := Node ex_rule [Leaf (mkTok "IF" 0 2); Leaf (mkTok "NAME" 3 1)].
+
+Lemma ex_rows_known : rows_known ex_terms ex_rows = true.
+Proof. reflexivity. Qed.
+
+Lemma ex_lr_parse :
+  parse tok (ContextualLR.ttype ex_terms) (ContextualLR.P ex_rows 0 3) 5 ex_tokens ex_end = Accepted ex_tree.
+Proof. vm_compute. reflexivity. Qed.
+
+Lemma ex_iso_lr (c : config tok) :
+  keywords_isolated ex_m ex_text ex_st
+    (sort_terms (sub_terms (config tok) (lr_accepts ex_terms ex_rows) ex_terms ex_ign [] c)).
+Proof.
+  intros K Y p HK HY HYs (R & HR & Hre & Hk) _ Hne _ _.
+  destruct (ex_kw R K Hk HR Hre) as [_ ->].
+  apply (proj1 (sort_in _ _)) in HY. unfold sub_terms in HY. apply filter_In in HY. destruct HY as [HY _].
+  cbn [ex_terms In] in HY. destruct HY as [H|[H|[H|[]]]]; subst; try discriminate. now apply Hne.
+Qed.
+
+(* the instantiated theorem applies: same tokens, same tree *)
+Lemma ex_contextual_lr_by_theorem :
+  ctx_lex lower ex_m ex_cok ex_text (config tok) (lr_accepts ex_terms ex_rows) (lr_step ex_terms ex_rows 0 3 5)
+          3 ex_terms ex_ign [] ex_root (init_config (ContextualLR.P ex_rows 0 3)) 0 = (ex_tokens, CEOF) /\
+  ctx_parse lower ex_m ex_cok ex_text ex_terms ex_ign [] ex_rows 0 3 5 3 ex_root ex_end = CxTree ex_tree.
+Proof.
+  apply (contextual_refines_basic_lr lower ex_m ex_cok ex_text ex_terms ex_ign [] ex_rows 0 3 5
+           ex_rows_known (fun _ => eq_refl) ex_uniq ex_str ex_bound ex_pos ex_sem ex_disj ex_ign_agrees
+           ex_iso_lr ex_root ex_tokens ex_tree ex_end ex_root_eq ex_basic ex_lr_parse).
+  cbn. lia.
+Qed.
+
+(* the first row accepts IF only: its sub-lexer has no NAME, the second no IF *)
+Lemma ex_lr_rows_differ :
+  row_accepts ex_terms ex_rows 0 = ["IF"] /\ row_accepts ex_terms ex_rows 1 = ["NAME"] /\
+  row_accepts ex_terms ex_rows 2 = ["$END"].
+Proof. vm_compute. repeat split; reflexivity. Qed.
+
+(* the Scanner object on the example: alternations answered by a backtracking engine built from
+   ex_m (one candidate per pattern) satisfy both assumptions *)
+Definition ex_cand (t : term) (txt : string) (p : nat) : list nat :=
+  match ex_m t txt p with Some n => [n] | None => [] end.
+
+Lemma ex_m_of : forall t txt p, m_of ex_cand t txt p = ex_m t txt p.
+Proof. intros t txt p. unfold m_of, ex_cand. now destruct (ex_m t txt p). Qed.
+
+Lemma ex_scanner_object :
+  sc_match (fun c txt p => named (alt_match_bt ex_cand c txt p)) (lx_mres ex_root) ex_text 0 = Some ("NAME", 2) /\
+  report_o ex_m (fun c v => option_map (fun x : term * nat => tname (fst x)) (alt_full_bt ex_cand c v)) ex_cok
+           ex_st NAME "if" = Some "IF".
+Proof. vm_compute. split; reflexivity. Qed.
